@@ -55,6 +55,33 @@ func programs() []prog {
 			wg.Wait()
 			out.add(x + y)
 		}},
+		{name: "full-buffer-recv-admits-parked-sender", exact: []string{"A,B,empty"}, impossible: []string{"A,empty"}, body: func(out *result) {
+			// B is parked on the full channel when the receiver starts; after
+			// receiving A a non-blocking receive must find B (the runtime moved
+			// it into the buffer during the first receive)
+			ch := make(chan string, 1)
+			vs.S(ch).Send("A")
+			parked := make(chan struct{})
+			vs.Go(func() { vs.Close(parked); vs.S(ch).Send("B") })
+			vs.Recv(parked)
+			vs.WaitUntil("B parked", func() bool { return true })
+			for i := 0; i < 50; i++ {
+				vs.Gosched()
+			}
+			x := vs.Recv(ch)
+			c := vs.RecvCase(ch)
+			if vs.Select(true, c) == 0 {
+				y := c.Value()
+				d := vs.RecvCase(ch)
+				if vs.Select(true, d) == 0 {
+					out.add(x + "," + y + ",more")
+				} else {
+					out.add(x + "," + y + ",empty")
+				}
+			} else {
+				out.add(x + ",empty")
+			}
+		}},
 		{name: "unbuffered-rendezvous", exact: []string{"got1"}, body: func(out *result) {
 			ch := make(chan int)
 			vs.Go(func() { vs.S(ch).Send(1) })
